@@ -55,6 +55,9 @@ func (e *Engine) intrinsic(fn *ssa.Function, name string) intrinsicFn {
 		if h, ok := ghostTable[base]; ok {
 			return h
 		}
+		if strings.HasPrefix(base, "uf") && fn.Parent() == nil {
+			return ghostUF
+		}
 		return nil
 	}
 	if h, ok := libTable[name]; ok {
@@ -99,13 +102,26 @@ func init() {
 		"freshBytes": func(s *State, fn *ssa.Function, args []Value, where string) []Value {
 			a := args[0].(*SliceV)
 			if s.assuming > 0 {
-				return []Value{True} // results of callees are distinct objects by construction
+				// results of callees are distinct objects by construction; remember that the callee allocated it
+				if o := a.object(); o != nil {
+					o.Fresh = true
+				}
+				return []Value{True}
 			}
 			o := a.object()
 			return []Value{BoolConst(o == nil || (o.Fresh && o.ID > s.allocBase))}
 		},
 		"freshPtr": func(s *State, fn *ssa.Function, args []Value, where string) []Value {
 			if s.assuming > 0 {
+				v := args[0]
+				if iv, ok := v.(*IfaceV); ok && iv.Type.IsConst() {
+					v = iv.alts[int(iv.Type.Val)]
+				}
+				if p, ok := v.(*PtrV); ok {
+					if o := p.object(); o != nil {
+						o.Fresh = true
+					}
+				}
 				return []Value{True}
 			}
 			v := args[0]
@@ -158,6 +174,21 @@ func init() {
 			}
 			return []Value{Eq(iv.Type, Const(32, uint64(id)))}
 		},
+		"streamSlice": func(s *State, fn *ssa.Function, args []Value, where string) []Value {
+			ov := s.bufioOf(args[0], where)
+			st := ov.Aux["stream"].(*ArrayV)
+			bo := args[0].(*PtrV).object()
+			vo := s.streamView[bo.ID]
+			if vo == nil {
+				vo = s.newObj(types.NewArray(types.Typ[types.Uint8], 0), st, "streamview", true)
+				vo.Ghost = "streamview"
+				if s.streamView == nil {
+					s.streamView = map[int]*Obj{}
+				}
+				s.streamView[bo.ID] = vo
+			}
+			return []Value{&SliceV{Obj: vo, Off: asTerm(args[1]), Len: asTerm(args[2]), Cap: asTerm(args[2]), Elem: types.Typ[types.Uint8]}}
+		},
 		// --- bufio ghost stream
 		"streamAt": func(s *State, fn *ssa.Function, args []Value, where string) []Value {
 			ov := s.bufioOf(args[0], where)
@@ -192,8 +223,8 @@ func init() {
 		"logCallee": func(s *State, fn *ssa.Function, args []Value, where string) []Value {
 			e := s.logEntry(args[0])
 			want := args[1].(*StringV).litOr("")
-			if e.Callee == "?" {
-				return []Value{s.freshVar("callee.is."+want, BoolSort)}
+			if e.Callee == "?" || e.Callee == "none" {
+				return []Value{App("logcallee_"+sanitize(want), BoolSort, e.N)}
 			}
 			return []Value{BoolConst(e.Callee == want)}
 		},
@@ -509,13 +540,18 @@ func (s *State) bufioOf(v Value, where string) *OpaqueV {
 	return ov
 }
 
-func (s *State) setBufio(v Value, ov *OpaqueV, pos *Term, bumpEpoch bool) {
+func (s *State) setBufio(v Value, ov *OpaqueV, pos *Term, bumpEpoch bool, bufmin ...*Term) {
 	o := v.(*PtrV).object()
 	n := &OpaqueV{Kind: ov.Kind, Aux: map[string]Value{}}
 	for k, x := range ov.Aux {
 		n.Aux[k] = x
 	}
 	n.Aux["pos"] = pos
+	if len(bufmin) > 0 {
+		n.Aux["bufmin"] = bufmin[0]
+	} else if bumpEpoch {
+		n.Aux["bufmin"] = Const(64, 0)
+	}
 	if bumpEpoch {
 		n.Aux["epoch"] = Add(asTerm(ov.Aux["epoch"]), Const(64, 1))
 		// invalidate outstanding Peek views: their contents become arbitrary
@@ -538,7 +574,12 @@ func libReadByte(s *State, fn *ssa.Function, args []Value, where string) []Value
 	if s.decide(2, "ReadByte") == 0 {
 		s.assume(has)
 		b := ov.Aux["stream"].(*ArrayV).Arr.Select(pos)
-		s.setBufio(args[0], ov, Add(pos, Const(64, 1)), true)
+		bm := bufMin(ov)
+		if s.proves(CmpBV("bvsle", Const(64, 1), bm)) {
+			s.setBufio(args[0], ov, Add(pos, Const(64, 1)), false, Sub(bm, Const(64, 1)))
+		} else {
+			s.setBufio(args[0], ov, Add(pos, Const(64, 1)), true)
+		}
 		return []Value{b, s.zeroValue(errorType())}
 	}
 	s.assume(Not(has))
@@ -557,8 +598,15 @@ func libPeek(s *State, fn *ssa.Function, args []Value, where string) []Value {
 	if s.decide(2, "Peek") == 0 {
 		s.assume(enough)
 		contents := &ArrayV{Arr: &ArrCopy{Base: &ArrVar{Name: s.freshName("peekbuf"), W: 8}, DstOff: Const(64, 0), Src: stream, SrcOff: pos, N: n}, N: n, Elem: types.Typ[types.Uint8]}
+		bm := bufMin(ov)
+		if s.proves(CmpBV("bvsle", n, bm)) {
+			// already buffered: no fill, earlier views stay valid
+		} else {
+			s.setBufio(args[0], ov, pos, true, n) // a fill may move the buffer: earlier views become stale
+		}
 		o := s.newObj(types.NewArray(types.Typ[types.Uint8], 0), contents, "peek", true)
 		o.Fresh = false // a view into the reader's buffer, not memory owned by the caller
+		o.Ghost = "peekview"
 		s.peekViews[bo.ID] = append(s.peekViews[bo.ID], o)
 		return []Value{&SliceV{Obj: o, Off: Const(64, 0), Len: n, Cap: n, Elem: types.Typ[types.Uint8]}, s.zeroValue(errorType())}
 	}
@@ -566,7 +614,9 @@ func libPeek(s *State, fn *ssa.Function, args []Value, where string) []Value {
 	// short: returns what is there and the transport error; position unchanged
 	m := Sub(avail, pos)
 	contents := &ArrayV{Arr: &ArrCopy{Base: &ArrVar{Name: s.freshName("peekbuf"), W: 8}, DstOff: Const(64, 0), Src: stream, SrcOff: pos, N: m}, N: m, Elem: types.Typ[types.Uint8]}
+	s.setBufio(args[0], ov, pos, true)
 	o := s.newObj(types.NewArray(types.Typ[types.Uint8], 0), contents, "peek.short", true)
+	o.Ghost = "peekview"
 	o.Fresh = false
 	s.peekViews[bo.ID] = append(s.peekViews[bo.ID], o)
 	return []Value{&SliceV{Obj: o, Off: Const(64, 0), Len: m, Cap: m, Elem: types.Typ[types.Uint8]}, ov.Aux["terr"]}
@@ -578,6 +628,12 @@ func libDiscard(s *State, fn *ssa.Function, args []Value, where string) []Value 
 	s.check("pre:bufio.Discard:n>=0@"+where, CmpBV("bvsle", Const(64, 0), n))
 	pos, avail := asTerm(ov.Aux["pos"]), asTerm(ov.Aux["avail"])
 	enough := CmpBV("bvsle", Add(pos, n), avail)
+	bm := bufMin(ov)
+	if s.proves(CmpBV("bvsle", n, bm)) {
+		// within buffered data: a pure pointer move, Peek views stay valid
+		s.setBufio(args[0], ov, Add(pos, n), false, Sub(bm, n))
+		return []Value{n, s.zeroValue(errorType())}
+	}
 	if enough.IsTrue() || s.decide(2, "Discard") == 0 {
 		s.assume(enough)
 		s.setBufio(args[0], ov, Add(pos, n), true)
@@ -690,7 +746,7 @@ func (s *State) crcFoldTerm(c *Term, arr Arr, off, n *Term, depth int) *Term {
 	at := s.arrTerm(arr)
 	t := App("crc_fold", BV(16), c, at, off, n)
 	key := t.id
-	if s.foldSeen[key] || depth <= 0 {
+	if s.foldSeen[key] || depth <= 0 || !s.unfoldCRC {
 		return t
 	}
 	s.foldSeen[key] = true
@@ -737,4 +793,46 @@ func (e *Engine) specFunc(name string) *ssa.Function {
 		}
 	}
 	return nil
+}
+
+func bufMin(ov *OpaqueV) *Term {
+	if t, ok := ov.Aux["bufmin"].(*Term); ok {
+		return t
+	}
+	return Const(64, 0)
+}
+
+// arrUF: uninterpreted functions that take (array, offset, length) and depend only on the bytes in that window.
+var arrUF = map[string]int{"crc_fold": 1, "sha_absorbN": 1}
+
+// ghostUF: a prelude function named uf* is an uninterpreted function of its arguments: scalars as they are,
+// pointers by object identity, byte slices by (array, offset, length) with window congruence.
+func ghostUF(s *State, fn *ssa.Function, args []Value, where string) []Value {
+	name := fn.Name()
+	var ts []*Term
+	for _, a := range args {
+		switch x := a.(type) {
+		case *Term:
+			ts = append(ts, x)
+		case *PtrV:
+			o := x.object()
+			if o == nil {
+				ts = append(ts, Const(64, 0))
+			} else {
+				ts = append(ts, Ite(x.Nil, Const(64, 0), Const(64, uint64(1000000+o.ID))))
+			}
+		case *SliceV:
+			arr, off := canonArr(s.sliceArr(x), x.Off, x.Len)
+			arrUF[name] = len(ts)
+			ts = append(ts, s.arrTerm(arr), off, x.Len)
+		default:
+			unsup("argument %T of uninterpreted ghost function %s", a, name)
+		}
+	}
+	rt := fn.Signature.Results().At(0).Type()
+	so, ok := sortOf(rt)
+	if !ok {
+		unsup("result type of %s", name)
+	}
+	return []Value{App(name, so, ts...)}
 }
